@@ -69,6 +69,9 @@ pub struct ExtBundle {
     pub delegation: u128,
     pub custom_ok: bool,
     pub all_balances: Vec<(String, Coins)>,
+    /// total supply of each watched denomination, as told to the contract
+    #[serde(default)]
+    pub supply: Vec<(String, u128)>,
 }
 
 #[derive(Clone, Debug, PartialEq, Eq, Serialize, Deserialize, Hash)]
@@ -219,6 +222,9 @@ fn make_bundle(deps: &Deps, env: &Env, w: &Watch) -> Bundle {
         e.custom_ok = cq.is_ok();
         for a in &w.all_principals {
             e.all_balances.push((a.clone(), all_balances(&deps.querier, a)));
+        }
+        for d in super::world::SUPPLY_DENOMS {
+            e.supply.push((d.to_string(), deps.querier.query_supply(d).map(|c| c.amount.u128()).unwrap_or(u128::MAX)));
         }
         b.ext = Some(e);
     }
